@@ -24,6 +24,7 @@ static inline void myth_wsqueue_lock_lock(myth_spinlock_t * lock) {
 }
 static inline int myth_wsqueue_lock_trylock(myth_spinlock_t * lock) {
 #if !USE_LOCK
+  if (MYTH_VERIF_BUGGIFY(MYTH_VB_WSQ_TRYLOCK)) return 0;   /* as if another thief held the lock at this moment */
   return myth_spin_trylock_body(lock);
 #else
   return 1;
